@@ -698,4 +698,61 @@ theorem Bay.propChan_rule (c : Nat) (Q : Bay → Nat → Prop)
         obtain ⟨wf', hl, hq'⟩ := ih b1 (j + 1) b' wf1 hq1 (by rw [hfix]; omega) h
         exact ⟨wf', hl.trans hfix, hfix ▸ hq'⟩
 
+
+theorem Bay.runCb_dirty_prefix {b b' : Bay} {cb : Cb} (wf : b.WF) (h : b.runCb cb = .ok b') :
+    ∃ ext, b'.dirty = b.dirty ++ ext := by
+  obtain ⟨m', _, _, _, hd, _⟩ := Bay.runCb_frame wf h
+  rcases hd with hd | hd
+  · exact ⟨[], by simp [hd]⟩
+  · exact ⟨[m'.out], hd⟩
+
+theorem Bay.propChan_dirty_prefix {b b' : Bay} {c fuel j : Nat} (wf : b.WF)
+    (hj : j ≤ (b.cbsOf c).length) (h : b.propChan fuel c j = .ok b') :
+    ∃ ext, b'.dirty = b.dirty ++ ext := by
+  have := Bay.propChan_rule c (fun b1 _ => ∃ ext, b1.dirty = b.dirty ++ ext)
+    (by
+      intro b1 j cb b2 wf1 ⟨ext, he⟩ _ hrun _
+      obtain ⟨ext2, he2⟩ := Bay.runCb_dirty_prefix wf1 hrun
+      exact ⟨ext ++ ext2, by rw [he2, he, List.append_assoc]⟩)
+    fuel b j b' wf ⟨[], by simp⟩ hj h
+  exact this.2.2
+
+theorem Bay.dirtyPhase_rule (P : Bay → Nat → Prop)
+    (hchan : ∀ (b : Bay) (k c : Nat) (b' : Bay), b.WF → P b k → b.dirty[k]? = some c →
+      b.propChan (b.chanFuel c) c 0 = .ok b' → P b' (k + 1)) :
+    ∀ (fuel : Nat) (b : Bay) (k : Nat) (b' : Bay), b.WF → P b k → k ≤ b.dirty.length →
+      b.dirtyPhase fuel k = .ok b' → b'.WF ∧ P b' b'.dirty.length := by
+  intro fuel
+  induction fuel with
+  | zero =>
+    intro b k b' wf hp hk h
+    unfold Bay.dirtyPhase at h
+    split at h
+    · rename_i hnone
+      cases h
+      have : k = b.dirty.length := by
+        have := List.getElem?_eq_none_iff.mp hnone; omega
+      exact ⟨wf, this ▸ hp⟩
+    · simp at h
+  | succ fuel ih =>
+    intro b k b' wf hp hk h
+    unfold Bay.dirtyPhase at h
+    split at h
+    · rename_i hnone
+      cases h
+      have : k = b.dirty.length := by
+        have := List.getElem?_eq_none_iff.mp hnone; omega
+      exact ⟨wf, this ▸ hp⟩
+    · rename_i c hc
+      simp only at h
+      split at h
+      · cases h
+      · rename_i b1 hrun
+        have hkl : k < b.dirty.length := (List.getElem?_eq_some_iff.mp hc).1
+        have wf1 := (Bay.propChan_rule c (fun _ _ => True) (by intros; trivial)
+          _ b 0 b1 wf trivial (Nat.zero_le _) hrun).1
+        obtain ⟨ext, hext⟩ := Bay.propChan_dirty_prefix wf (Nat.zero_le _) hrun
+        exact ih b1 (k + 1) b' wf1 (hchan b k c b1 wf hp hc hrun)
+          (by rw [hext, List.length_append]; omega) h
+
 end Ovni.Emu
